@@ -829,6 +829,11 @@ class Interp:
             if v.items is not None and len(v.items) == n and not star:
                 for e, x in zip(target.elts, v.items):
                     self.assign(e, x, st, node)
+            elif v.kind in ("arr", "unknown") and v.dim[0] == "COLS" and len(v.dim[1]) == n and not star:
+                # unpacking one row of an array with column-wise dimensions (slope, intercept = lines[i])
+                el = self.element_of(v, st, node)
+                for e, c in zip(target.elts, v.dim[1]):
+                    self.assign(e, el.copy(dim=D(c) if c is not None else ANY), st, node)
             else:
                 el = self.element_of(v, st, node)
                 if "where" in v.tags and n >= 2:
@@ -870,6 +875,15 @@ class Interp:
                 self.emit(st, "local-store", node, name=target.value.id, value=v, index=idx)
             if isinstance(target.value, ast.Name) and target.value.id not in st.env and not self._in_closure(target.value.id):
                 self.emit(st, "global-write", node, name=target.value.id, rhs=v)
+            # a container of an enclosing function (memo dict of a closure): remember what was stored there as well
+            if isinstance(target.value, ast.Name) and target.value.id not in st.env and self._in_closure(target.value.id):
+                for cenv in self.frames[-1].closure_env:
+                    if target.value.id in cenv:
+                        ccur = cenv[target.value.id]
+                        if not ccur.al and ccur.kind in ("dict", "list", "set"):
+                            cenv[target.value.id] = ccur.copy(deps=ccur.deps | v.deps, pdeps=ccur.pdeps | v.pdeps, elem=join_vals(ccur.elem, v),
+                                                              mapping=None, items=None if ccur.kind == "list" else ccur.items)
+                        break
             # local containers: remember what was stored
             if isinstance(target.value, ast.Name) and target.value.id in st.env:
                 cur = st.env[target.value.id]
@@ -1468,6 +1482,10 @@ class Interp:
         bt = batch_tag(l, r)
         if bt and out.kind not in ("str",):
             out.tags = out.tags | bt
+        if isinstance(op, ast.Mult) and isinstance(node, ast.BinOp) and ast.dump(node.left) == ast.dump(node.right) and out.kind in ("arr", "unknown"):
+            out.tags = out.tags | {"square-of"}
+        if isinstance(op, ast.Pow) and r.is_number_const() and r.const == 2 and out.kind in ("arr", "unknown"):
+            out.tags = out.tags | {"square-of"}
         if l.kind == "set" or r.kind == "set":
             out.tags = out.tags | ret_tags(l, r)        # set algebra keeps the provenance of its operands
         if isinstance(op, ast.Sub):
@@ -1617,7 +1635,8 @@ class Interp:
                 o.deps, o.pdeps = v.deps, v.pdeps
                 return o
             return Val(dim=v.dim, kind=v.kind, deps=v.deps, pdeps=v.pdeps, sym=(-v.sym) if v.sym is not None else None,
-                       born=self.time, tags=(frozenset([("neg-of",) + tuple(sorted(v.al))]) if v.al else frozenset()) | batch_tag(v),
+                       born=self.time, tags=(frozenset([("neg-of",) + tuple(sorted(v.al))]) if v.al else frozenset()) | batch_tag(v)
+                       | ret_tags(v) | (frozenset() if "negated" in v.tags else frozenset(["negated"])),
                        tr=v.tr if v.tr in ("T0", "TA", "TX") else None)
         if isinstance(n.op, ast.Invert):
             return Val(dim=D0, kind=v.kind, deps=v.deps, pdeps=v.pdeps, born=self.time, tags=batch_tag(v))
@@ -1630,6 +1649,23 @@ class Interp:
             r = join_vals(r, v)
         out = Val(kind="bool", dim=D0, deps=r.deps, pdeps=r.pdeps, born=self.time, tags=ret_tags(*vals))
         out.extra = ("boolop", type(n.op).__name__, vals)
+        # constant folding: `False and x`, `True or x`, all operands known
+        consts = [v.const for v in vals if v.has_const() and isinstance(v.const, bool)]
+        static = [v for v in vals if v.has_const() and isinstance(v.const, bool) and ("static" in v.tags or not v.deps)]
+        if isinstance(n.op, ast.And):
+            if any(v.const is False for v in static):
+                out.const, out.tags = False, out.tags | {"static"}
+            elif len(consts) == len(vals) and all(consts):
+                out.const = True
+                if len(static) == len(vals):
+                    out.tags = out.tags | {"static"}
+        else:
+            if any(v.const is True for v in static):
+                out.const, out.tags = True, out.tags | {"static"}
+            elif len(consts) == len(vals) and not any(consts):
+                out.const = False
+                if len(static) == len(vals):
+                    out.tags = out.tags | {"static"}
         return out
 
     def e_Compare(self, n, st):
